@@ -752,8 +752,13 @@ func c14R10(p *core.Prog, r *core.Report) {
 				n++
 				key := fmt.Sprintf("%s: segment#%d", core.FuncName(fn), n)
 				bad := false
-				for _, e := range end.Edges {
-					if e == sl.Low {
+				for i, e := range end.Edges {
+					pred := end.Block().Preds[i]
+					if blockReaches(end.Block(), pred) {
+						continue // loop-carried edge
+					}
+					// entry edge: the initial value of the inclusive end
+					if e == sl.Low || x.Canon(e).S == x.Canon(sl.Low).S {
 						bad = true
 					}
 				}
